@@ -157,10 +157,10 @@ func aliasFns(before snapshot, after *tengo.Bytecode) {
 			break
 		}
 	}
-	if len(fnAlias) > 200000 { // per-program tables: keep the process small
-		fnAlias = map[*tengo.CompiledFunction]*tengo.CompiledFunction{}
-	}
 }
+
+// resetAliases starts a new, independent case (the table only has to live as long as one program / pool is examined).
+func resetAliases() { fnAlias = map[*tengo.CompiledFunction]*tengo.CompiledFunction{} }
 
 func (p ptrIDs) id(f *tengo.CompiledFunction) int {
 	f = origFn(f)
@@ -672,6 +672,7 @@ func assignments(in replayInput) []assignment {
 }
 
 func checkProgram(in replayInput) {
+	resetAliases()
 	orig, err := compile(in)
 	if err != nil {
 		res.Count("run3", in.Source, false)
@@ -1026,6 +1027,7 @@ func poolCase(r *lib.RNG, bigN int) {
 		}
 	}
 	bc := &tengo.Bytecode{FileSet: parser.NewFileSet(), MainFunction: &tengo.CompiledFunction{Instructions: code()}, Constants: consts}
+	resetAliases()
 	ids := ptrIDs{}
 	line := bcSexp(bc, ids)
 	in := replayInput{Pool: clip(line, 6000)}
